@@ -8,7 +8,8 @@ from .. import harness
 from ..common import rng_for, digest
 from ..engines import create as E
 from ..gen import callsets as G
-from ..gen.vcfgen import CallSet, Record
+from ..gen.vcfgen import CallSet, Record, gt
+from ..gen import vcfgen
 from ..oracle.callset import reference_create, classify
 
 LEVEL = "exploration"
@@ -80,6 +81,35 @@ def gen(seed, labels, level):
     return {"cs": cs, "map": smap, "twin": twin, "container": container, "layout_seed": layout_seed, "labels": labels,
             "level": level, "via": rng.choice(["stdin", "path"]), "samples_via": rng.choice(["arg", "file"]),
             "threads": rng.choice([None, 1, 2, 4])}
+
+
+def gen_wide(seed, labels):
+    """A cohort of a few thousand sample columns (2050, 2051, 4097, 1025: not multiples of the usual block sizes), all selected, in
+    one or two populations; ALT alleles and a missing genotype sit in the LAST columns of some records."""
+    rng = rng_for(seed, "c01", *labels)
+    n = rng.choice([2050, 2051, 4097, 1025, 2049])
+    samples = ["w%04d" % j for j in range(n)]
+    recs = []
+    for ri in range(rng.choice([6, 9])):
+        gts = [gt((0, 0))] * n
+        style = ri % 3
+        tail = list(range(n - rng.randint(1, 3), n))
+        if style == 0:
+            for j in tail:
+                gts[j] = gt((1, 1), rng.random() < 0.5)
+        elif style == 1:
+            gts[rng.choice(tail)] = gt((None, None))          # the site must be skipped
+        else:
+            for j in rng.sample(range(n), 7) + tail[:1]:
+                gts[j] = gt((0, 1))
+        recs.append(Record("c1", 10 + ri, gts))
+    cs = CallSet(samples, [("c1", 10 ** 6)], recs)
+    cut = rng.choice([n, n - 2, n // 2])
+    smap = [(s_, None) for s_ in samples] if cut == n else [(s_, "A" if j < cut else "B") for j, s_ in enumerate(samples)]
+    if cut != n and 2 * cut + 1 > 3000 and 2 * (n - cut) + 1 > 3000:
+        smap = [(s_, "A" if j < n - 2 else "B") for j, s_ in enumerate(samples)]     # keep the spectrum small: one big, one tiny population
+    return {"cs": cs, "map": smap, "twin": None, "container": rng.choice(E.CONTAINERS), "layout_seed": rng.randrange(1 << 30), "labels": labels,
+            "level": "C", "via": rng.choice(["stdin", "path"]), "samples_via": "file", "threads": rng.choice([None, 1, 2, 4, 3])}
 
 
 def nontrivial(cs, smap, exp):
@@ -217,11 +247,53 @@ def gen_boundary(seed, labels):
             "level": "C", "via": rng.choice(["stdin", "path"]), "samples_via": "arg", "threads": rng.choice([None, 2]), "boundary": True}
 
 
+def check_bcf_sample_counts(S, p):
+    """BCF lets every record declare its own number of samples. A record that declares fewer than the header names (0: a sites-only
+    record; n-1: the last column missing) carries no genotype for some SELECTED sample: it must be refused, or contribute nothing
+    (as a record with missing genotypes does) - never be counted from the samples that happen to be there."""
+    import struct
+    rng = rng_for(S.seed, "c01", p["name"], "bcf-n-sample")
+    cs = G.random_callset(rng, nsamples=rng.choice([2, 3, 5]), nrecords=rng.choice([3, 6, 9]), p_missing=0.0, p_multi=0.0, extras=False, complete_only=True)
+    smap = [(s_, rng.choice(["A", "B"])) for s_ in cs.samples] if rng.random() < 0.5 else [(s_, None) for s_ in cs.samples]
+    if len({q for _, q in smap}) == 2 and smap[-1][1] != smap[0][1]:
+        pass
+    head, recs = cs.bcf_records()
+    k = rng.randrange(len(recs))
+    r = cs.records[k]
+    l_shared, l_indiv = struct.unpack("<II", recs[k][:8])
+    sites_only = bytearray(struct.pack("<II", l_shared, 0) + recs[k][8:8 + l_shared])
+    sites_only[28:32] = struct.pack("<I", 0)
+    tmp = CallSet(cs.samples[:-1], cs.contigs, [Record(r.contig, r.pos, r.gts[:-1], ref=r.ref, alts=r.alts, id=r.id, qual=r.qual, filt=r.filt)],
+                  info_defs=cs.info_defs, fmt_defs=cs.fmt_defs, filters=cs.filters, version=cs.version)
+    tmp.contig_perm = getattr(cs, "contig_perm", None)
+    one_fewer = tmp.bcf_records()[1][0]
+    # what the run may print if it accepts the file: the affected record treated like one with missing genotypes
+    skipped = CallSet(cs.samples, cs.contigs, [rec if j != k else Record(rec.contig, rec.pos, [gt((None, None)) for _ in rec.gts], ref=rec.ref, alts=rec.alts)
+                                                for j, rec in enumerate(cs.records)], fmt_defs=cs.fmt_defs, filters=cs.filters)
+    exp = reference_create(skipped, smap)
+    want = ("#SHAPE=<%s>\n%s\n" % ("/".join(map(str, exp.shape)), " ".join(str(int(x)) for x in exp.cells))).encode()
+    for name, variant in (("no sample columns (n_sample = 0)", bytes(sites_only)), ("one sample column fewer than the header", one_fewer)):
+        if len(cs.samples) < 2 and "fewer" in name:
+            continue
+        raw = head + b"".join(recs[:k]) + variant + b"".join(recs[k + 1:])
+        for container, data in (("rawbcf", raw), ("bcf", vcfgen.bgzf(raw, [len(head)]))):
+            rr = E.cli_create(data, smap)
+            S.count("C_runs")
+            S.count("C_bcf_short_records")
+            refused = rr.rc != 0 and not rr.out and rr.err.strip() and not rr.panicked and not rr.signal
+            if not refused and not (rr.rc == 0 and rr.out == want):
+                from .. import replay as R
+                S.viol("C01:bcf-short-record:%s" % container, "[C:%s record %d of %d with %s] neither refused nor treated as missing: rc %s stdout %r stderr %r; as missing it would print %r" % (
+                    container, k, len(recs), name, rr.rc, rr.out[:120], rr.err[:200], want[:120]),
+                    {"level": "C", "argv": rr.argv, "stdin_b64": E.b64(data), "map": E.map_json(smap), "run": rr.brief(), "replay": R.exact(rr, want) if rr.rc == 0 else None})
+            S.case(key=digest([data.hex()[:4000], name]), nontrivial=True)
+
+
 def shard(S, p):
     seed = S.seed
     if "replay" in p:
         w = p["replay"]
-        case = gen_boundary(seed, w["labels"]) if "boundary" in w["labels"] else gen(seed, w["labels"], w["level"])
+        case = gen_boundary(seed, w["labels"]) if "boundary" in w["labels"] else (gen_wide(seed, w["labels"]) if "wide" in w["labels"] else gen(seed, w["labels"], w["level"]))
         if w["level"] == "C":
             run_level_C(S, seed, [case])
         else:
@@ -235,7 +307,11 @@ def shard(S, p):
         run_level_L(S, seed, [gen(seed, [p["name"], "L2", i], "L2") for i in range(lo, min(p["l2"], lo + B))], "L2")
     for lo in range(0, p["c"], B):
         run_level_C(S, seed, [gen(seed, [p["name"], "C", i], "C") for i in range(lo, min(p["c"], lo + B))])
+    check_bcf_sample_counts(S, p)
     idx = int(p["name"][1:])
+    if idx % 4 == 2:
+        run_level_C(S, seed, [gen_wide(seed, [p["name"], "wide", 0])])
+        S.count("C_wide_cohorts")
     if idx < len(BOUNDARY_RECORDS):
         run_level_C(S, seed, [gen_boundary(seed, [p["name"], "boundary", idx])])
         S.count("C_boundary_record_counts")
